@@ -99,6 +99,7 @@ type Interp struct {
 	f2iSrc    map[int]*Term
 	pcSet     map[int]bool
 	fixedLog  []WitnessChoice
+	lenient   int
 	synHits   int
 	setups    map[string]Value
 	rng        *rand.Rand
@@ -163,6 +164,8 @@ var interpFuncs = map[string]bool{
 	"math.IsNaN": true, "math.IsInf": true, "math.Inf": true, "math.NaN": true, "math.Signbit": true,
 	"sort.Strings": false,
 }
+
+var initPkgs = map[string]bool{"unicode/utf8": true, "encoding/binary": true, "time": true}
 
 var timeIntrinsic = map[string]bool{
 	"(time.Time).String": true, "(time.Time).Format": true, "(time.Time).UnixNano": true, "(time.Time).Year": true,
@@ -349,8 +352,14 @@ func (in *Interp) callFn(caller *Frame, fn *ssa.Function, args []Value, env []Va
 	}
 	if strings.HasSuffix(fi.name, ".init") {
 		p := pkgOfFn(fn)
-		if p == nil || !isRepoPkgPath(p.Path()) {
+		if p == nil || !(isRepoPkgPath(p.Path()) || initPkgs[p.Path()]) {
 			return nil
+		}
+		if !isRepoPkgPath(p.Path()) {
+			// standard-library initialiser: calls the engine has no model for
+			// yield zero values (tables and sentinel errors are what matters)
+			in.lenient++
+			defer func() { in.lenient-- }()
 		}
 	}
 	in.funcsRun[fn]++
